@@ -47,7 +47,8 @@ Definition model_obs (i : input) : obs :=
      p_res := merge_by_patches c (i_base i) (i_left i) (i_right i);
      p_calls := send_calls ld rd;
      p_canon := true;
-     p_stream := [] |}.
+     (* the point-level refinement of whatever stream the generator picks *)
+     p_stream := map (fun e => PPoint (fst e) (snd e)) (send_patches c ld rd) |}.
 
 Definition twd_eqb (a b : twd) : bool :=
   let '(o1, r1, m1) := a in let '(o2, r2, m2) := b in (o1 =? o2) && opt_eqb r1 r2 && opt_eqb m1 m2.
